@@ -29,6 +29,7 @@ let qf (q : M.q) : float = BQ.to_float (BQ.make q.M.qnum q.M.qden)
 let fq (f : float) : M.q = let q = BQ.of_float f in { M.qnum = BQ.num q; M.qden = BQ.den q }
 let finite_or_zero (f : float) : float = match classify_float f with FP_nan | FP_infinite -> 0. | _ -> f
 let lg (q : M.q) : M.q = fq (finite_or_zero (log10 (qf q)))
+let pw (q : M.q) : M.q = fq (finite_or_zero (10. ** (qf q)))
 let ln10 : M.q = fq (log 10.)
 let pen (c : M.q) : M.q option =
   let f = -2. *. log (1. -. qf c) in
@@ -118,6 +119,9 @@ let dispatch (op : string) (x : v) : v =
   | "convert", [fa; ka; fb; kb; nu; d; xs] ->
       let fam (x : v) : M.family = match x with S "Fnu" -> M.Fnu | S "Fint" -> M.Fint | S "Lum" -> M.Lum | _ -> raise (Bad "family") in
       of_list (fun x -> of_q (M.convert (fam fa) (to_q ka) (fam fb) (to_q kb) (to_q nu) (to_q d) (to_q x))) (args xs)
+  | "interp_var", [filt; amin; amax; cols] ->
+      of_opt (of_list of_q)
+        (M.sed_interp_var_m lg pw (to_list to_pt filt) (to_q amin) (to_q amax) (to_list (to_pair to_q (to_list to_pt)) cols))
   | "ndist", [l; step] -> of_z (M.ndist (to_q l) (to_q step))
   | "gridlog", [lo; hi; n] -> of_list of_q (M.gridlog_m (to_q lo) (to_q hi) (to_nat n))
   | "rank", [chi] -> of_list of_nat (M.rank_m (to_list to_xnum chi))
